@@ -1,5 +1,6 @@
 import LospanVerif.Model.Pipeline
 import LospanVerif.Proofs.Counters
+import LospanVerif.Proofs.Circ
 /-
   C03 — uplink replay protection: a frame counter is accepted at most once.
 
@@ -14,7 +15,7 @@ import LospanVerif.Proofs.Counters
 -/
 namespace LospanVerif
 namespace Props.C03
-open Model.Pipeline Model.Phy Proofs.Counters
+open Model.Pipeline Model.Phy Proofs.Counters Proofs.Circ
 
 /-- The counters accepted for device `e`, in the order they were accepted. -/
 def acceptedFor (s : Sys) (e : Bytes) : List Nat := (s.acceptedUp.filter (fun x => x.1 == e)).map (·.2)
@@ -45,6 +46,30 @@ theorem C03_no_second_acceptance (E D : Spec.Rfc4493.BlockFn) (cfg : Config) (db
   obtain ⟨d, hd, hde, hdf⟩ := hany
   have := C03_accepted_below_stored E D cfg db evs e f h d hd hde
   omega
+
+/-- **All schedules, at the level of the inbox.** `recordedUp` records (device, FCnt) of every inbox
+    row written for a device copy with strict counter checking. For a device whose counter epoch is
+    running (no join, no 16-bit wrap: not in `resetsUp`), no (device, FCnt) is recorded twice, and
+    every recorded one went through a successful `AdvanceFCntUp` — for every event list: all
+    interleavings of all threads (copies through several gateways, the downlink encoder), injected
+    faults, crashes. -/
+theorem C03_recorded_once (E D : Spec.Rfc4493.BlockFn) (cfg : Config) (db : DB) (evs : List Event) (x : Bytes × Nat)
+    (hx : x.1 ∉ (run E D cfg (Sys.init db) evs).resetsUp) :
+    (run E D cfg (Sys.init db) evs).recordedUp.count x ≤ 1 ∧
+    (x ∈ (run E D cfg (Sys.init db) evs).recordedUp → x ∈ (run E D cfg (Sys.init db) evs).acceptedUp) := by
+  obtain ⟨h1, h2⟩ := (kinv_run E D cfg _ evs (kinv_init db)).up x hx
+  simp only [Book.circ, upBook] at h1 h2
+  refine ⟨by omega, fun hm => h2 ?_⟩
+  have : 0 < (run E D cfg (Sys.init db) evs).recordedUp.count x := List.count_pos_iff.mpr hm
+  omega
+
+/-- The history entry and the inbox row are written together: the insert step of a strict device's
+    handler appends the row to the inbox and (device, the frame's FCnt) to `recordedUp`. -/
+theorem C03_insert_records (E : Spec.Rfc4493.BlockFn) (sys : Sys) (s : UpSt) (h2 : s.pc = 2) (hs : s.cur.relaxed = false) (db' : DB)
+    (hins : sys.db.addInbox ⟨s.cur.eui, s.gw.ts, decryptFrm E s.cur.nwkSKey s.cur.appSKey s.p, s.gw.gwEUI, s.cur.devAddr, s.gw.radio⟩ = some db') :
+    (stepUplink E sys s false).1.db = db' ∧
+    (stepUplink E sys s false).1.recordedUp = sys.recordedUp ++ [(s.cur.eui, s.p.mac.fhdr.fcnt)] := by
+  simp [stepUplink, h2, hins, hs]
 
 /-- A strict device's frame gets past the counter step (towards the inbox) only through a
     successful `AdvanceFCntUp` for exactly its counter: when that statement changes no row, every
